@@ -48,7 +48,7 @@ BOUNDS = {
     "thorough": "same plus depth-3 spine over a reduced operator set, both builds",
 }
 OUTSIDE = "numpy object left of a ref; exceptions other than ZeroDivisionError/TypeError; float rounding (real domain)"
-REQUIRED_CLASSES = ["euf_valid", "zero_division_nan", "inplace_checked", "inplace_with_foreign_target", "raise_consistent"]
+REQUIRED_CLASSES = ["euf_valid", "zero_division_nan", "inplace_checked", "inplace_with_foreign_target", "raise_consistent", "callee_replaced"]
 PROFILE_CASES = 40
 TASKS_PER_CHILD = 500
 
@@ -318,9 +318,9 @@ class Ctx:
         if k == "call":
             es = [self.both(x) for x in t[1]]
             ks = {n: self.both(x) for n, x in t[2]}
-            g = self.fo.g
+            # the callee is an operand too: the direct evaluation looks it up when it runs
             return (self.fr.g(*[e for e, _ in es], **{n: e for n, (e, _) in ks.items()}),
-                    (lambda: g(*[dd() for _, dd in es], **{n: dd() for n, (_, dd) in ks.items()})))
+                    (lambda: self.fo.g(*[dd() for _, dd in es], **{n: dd() for n, (_, dd) in ks.items()})))
         raise ValueError(t)
 
     def collect(self, e):
@@ -396,13 +396,14 @@ def note(ex, k):
     ex.notes[k] = ex.notes.get(k, 0) + 1
 
 
-def check_tree(ex, ctx, case, tree, tag):
+def check_tree(ex, ctx, case, tree, tag, built=None):
     """deferred value vs direct evaluation, for all operand values.  The direct
     evaluation applies Python's operator to the operand values; at a / // % node
     a ZeroDivisionError raised *by that operator* becomes NaN (the documented
-    deviation) - an error raised while evaluating an operand propagates."""
+    deviation) - an error raised while evaluating an operand propagates.
+    built: an (expression, direct thunk) pair made earlier (the same expression object again)."""
     try:
-        expr, direct = ctx.both(tree)
+        expr, direct = built if built is not None else ctx.both(tree)
     except (Abort, Inconclusive):
         raise
     except TypeError as e:
@@ -510,6 +511,12 @@ def _uses(t, leaf):
     return any(_uses(x, leaf) for x in t if isinstance(x, (tuple, list))) if isinstance(t, (tuple, list)) else False
 
 
+def _has_call(t):
+    if isinstance(t, tuple) and t and t[0] == "call":
+        return True
+    return any(_has_call(x) for x in t if isinstance(x, (tuple, list))) if isinstance(t, (tuple, list)) else False
+
+
 def _uses_lit(t):
     if isinstance(t, tuple) and t[:2] == ("lit", "q"):
         return True
@@ -531,12 +538,33 @@ def run_expr(ex, case):
     ctx = Ctx(ex, case)
     tree = make_tree(case)
     tag = _tag(case)
-    if not check_tree(ex, ctx, case, tree, tag):
+    try:
+        built = ctx.both(tree)
+    except (Abort, Inconclusive):
+        raise
+    except TypeError:
+        built = None
+    if not check_tree(ex, ctx, case, tree, tag, built=built):
         return
     # the same node after its operands changed through the manager
     if case["dom"] != "euf" and case.get("in1", "leaf") == "leaf":
         ctx.r["a"] = ctx.D.fresh("a_new")
-        check_tree(ex, ctx, case, tree, tag + " (after a changed)")
+        if not check_tree(ex, ctx, case, tree, tag + " (after a changed)"):
+            return
+        # ... and the very same expression object, evaluated before, evaluated again
+        if built is not None and not check_tree(ex, ctx, case, tree, tag + " (same expression object after a changed)", built=built):
+            return
+    # the callee of a call is an operand like any other: replaced through the ref or in the container,
+    # the expression object evaluated before must call the new one
+    if case["dom"] != "euf" and built is not None and _has_call(tree):
+        newg = ctx.D.func("h", 2)
+        if ex.choose(2):
+            ctx.fr.g = newg
+        else:
+            ctx.fo.g = newg
+        note(ex, "callee_replaced")
+        if not check_tree(ex, ctx, case, tree, tag + " (same expression object after the callee was replaced)", built=built):
+            return
     ex.notes["classes:" + ",".join(sorted(ctx.classes))] = 1
     if len(ex.samples) < 1:
         ex.samples.append({"case": tag, "dom": case["dom"], "tree": repr(tree)})
